@@ -286,16 +286,18 @@ struct ImportsByName {
 }
 impl Coll for ImportsByName {
     fn add(&mut self, m: &mut Module, v: u32) -> usize {
+        // the same field name appears under two module names (every other import goes to "alt")
         let ty = m.types.add(&[], &[]);
-        let id = m.add_import_func("env", &format!("i{}", v), ty).1;
+        let module = if self.ids.len() % 2 == 0 { "env" } else { "alt" };
+        let id = m.add_import_func(module, &format!("i{}", v), ty).1;
         self.ids.push(id);
         id.index()
     }
     fn delete(&mut self, m: &mut Module, rid: usize) -> bool {
         let Some(id) = self.ids.iter().copied().find(|i| i.index() == rid) else { return false };
-        let name = quiet(|| m.imports.get(id).name.clone());
-        match name {
-            Some(n) if m.imports.iter().filter(|e| e.name == n).count() == 1 => m.imports.remove("env", &n).is_ok(),
+        let key = quiet(|| (m.imports.get(id).module.clone(), m.imports.get(id).name.clone()));
+        match key {
+            Some((md, n)) if m.imports.iter().filter(|e| e.module == md && e.name == n).count() == 1 => m.imports.remove(&md, &n).is_ok(),
             _ => quiet(|| m.imports.delete(id)).is_some(),
         }
     }
@@ -306,11 +308,16 @@ impl Coll for ImportsByName {
     fn iter(&self, m: &Module) -> Vec<(usize, u32)> {
         m.imports.iter().map(|e| (e.id().index(), e.name[1..].parse().unwrap_or(9999))).collect()
     }
+    fn iter_mut(&self, m: &mut Module) -> Option<Vec<(usize, u32)>> {
+        Some(m.imports.iter_mut().map(|e| (e.id().index(), e.name[1..].parse().unwrap_or(9999))).collect())
+    }
     fn find(&self, m: &Module, v: u32) -> Option<i64> {
-        Some(match m.imports.get_func("env", format!("i{}", v)) {
-            Ok(f) => m.imports.get_imported_func(f).map(|e| e.id().index() as i64).unwrap_or(-2),
-            Err(_) => -1,
-        })
+        for md in ["env", "alt"] {
+            if let Ok(f) = m.imports.get_func(md, format!("i{}", v)) {
+                return Some(m.imports.get_imported_func(f).map(|e| e.id().index() as i64).unwrap_or(-2));
+            }
+        }
+        Some(-1)
     }
 }
 
